@@ -277,6 +277,52 @@ pub fn run(ctx: &mut Ctx) {
             cdec_one(ctx, &m, "mutated");
         }
     }
+    // 1a. witness streams for witness types from the zoo (sums with equal-width branches padded on one
+    //     or both sides, nested): the valid stream, its mutations, and every 0/1-byte and many 2-byte
+    //     strings — whatever is accepted must re-encode to itself
+    {
+        let mut done = 0;
+        let want = ctx.scale(40, 800);
+        for _ in 0..20 * want {
+            if done >= want {
+                break;
+            }
+            let k = 1 + ctx.rng.below(2) as usize;
+            let tys: Vec<gen::T> = (0..k)
+                .map(|_| {
+                    let d = 1 + ctx.rng.below(3) as usize;
+                    gen::gen_t_zoo(&mut ctx.rng, d)
+                })
+                .collect();
+            if tys.iter().any(|t| t.size() > 24) || tys.iter().all(|t| t.bw() == 0) {
+                continue;
+            }
+            let plan = gen::witness_zoo_plan(&mut ctx.rng.fork(), &tys);
+            let Ok(Ok((red, _))) = catch(|| gen::redeem_of_plan(&plan, &mut ctx.rng.fork(), true)) else { continue };
+            done += 1;
+            let (pb, wb) = red.to_vec_with_witness();
+            dec_one(ctx, &pb, &wb, "zoo-valid", true);
+            for _ in 0..4 {
+                let w2 = codec::mutate(&mut ctx.rng, &wb);
+                dec_one(ctx, &pb, &w2, "zoo-mutated-witness", true);
+            }
+            dec_one(ctx, &pb, &[], "zoo-short-witness", true);
+            let bits: usize = tys.iter().map(|t| t.bw()).sum();
+            if bits <= 16 {
+                for b in 0..=255u8 {
+                    dec_one(ctx, &pb, &[b], "zoo-short-witness", done % 4 == 0);
+                }
+                for _ in 0..64 {
+                    let w = ctx.rng.bytes(2);
+                    dec_one(ctx, &pb, &w, "zoo-short-witness", true);
+                }
+                for b in [0u8, 1, 0x80, 0xff] {
+                    dec_one(ctx, &pb, &[b, 0], "zoo-short-witness", true);
+                    dec_one(ctx, &pb, &[0, b], "zoo-short-witness", true);
+                }
+            }
+        }
+    }
     // 1b. twins: `comp fail (comp (pair L L) unit)` with the leaf L written out twice, for every kind of leaf
     //     (each Elements jet, iden, unit, words): the sharing rule must hold for each of them
     {
